@@ -46,11 +46,14 @@ class Kinds:
     """Kinds of loop variables in one function, by fixpoint over the
     for/comprehension headers."""
 
-    def __init__(self, fi):
+    def __init__(self, fi, seed: dict[str, str] | None = None):
         self.fi = fi
-        self.selfn = fi.params()[0]
+        self.selfn = fi.params()[0] if fi.params() else "self"
         self.kind: dict[str, str] = {}
         self.scopes: dict[str, list] = {}     # name -> [(scope node, kind)]
+        for name, kind in (seed or {}).items():
+            self.kind[name] = kind
+            self.scopes[name] = [(fi.node, kind)]
         headers = []
         for node in ast.walk(fi.node):
             if isinstance(node, ast.For):
@@ -187,14 +190,9 @@ def run(prog: Program, res: Result, tier: str) -> None:
         chain = chain_of(prog, K, "relabel_atoms")
         if not chain:
             raise AnalysisError(f"{K}.relabel_atoms does not resolve")
-        for fi in chain:
-            if fi.qual in seen_funcs:
-                continue
-            seen_funcs.add(fi.qual)
-            params = fi.params()
-            if len(params) < 2:
-                raise AnalysisError(f"{fi.qual}: unexpected signature")
-            mapping = params[1]
+        def check_body(fi, mapping, seed=None):
+            nonlocal n_flows
+            kinds = Kinds(fi, seed)
             # R-RENAME-TOTAL ------------------------------------------------
             for node in ast.walk(fi.node):
                 if isinstance(node, ast.Name) and node.id == mapping and \
@@ -215,6 +213,28 @@ def run(prog: Program, res: Result, tier: str) -> None:
                             parent(p).func).endswith("relabel_atoms"):
                         res.ok("R-RENAME-TOTAL", inst, fi.loc(node),
                                "handed to the next relabel_atoms")
+                    elif isinstance(p, ast.Call) and isinstance(
+                            p.func, ast.Name) and prog.has_fn(
+                            f"{fi.module.name}:{p.func.id}") and node in p.args:
+                        # mapping handed to a helper: analyse the helper
+                        callee = prog.fn(f"{fi.module.name}:{p.func.id}")
+                        cparams = callee.params()
+                        idx = p.args.index(node)
+                        if idx < len(cparams):
+                            cseed = {}
+                            for a, cp in zip(p.args, cparams):
+                                if isinstance(a, ast.Name):
+                                    k = kinds.kind_at(a)
+                                    if k:
+                                        cseed[cp] = k
+                            if callee.qual not in seen_funcs:
+                                seen_funcs.add(callee.qual)
+                                check_body(callee, cparams[idx], cseed)
+                            res.ok("R-RENAME-TOTAL", inst, fi.loc(node),
+                                   f"handed to helper {callee.short}")
+                        else:
+                            res.unrecognised("R-RENAME-TOTAL", inst,
+                                             fi.loc(node), "helper signature")
                     else:
                         ctx = pp if isinstance(p, ast.Attribute) else p
                         res.bad("R-RENAME-TOTAL",
@@ -223,7 +243,6 @@ def run(prog: Program, res: Result, tier: str) -> None:
                                 "mapping partially (atoms missing from the "
                                 "mapping must stay unchanged)", instance=inst)
             # R-RENAME-ALL --------------------------------------------------
-            kinds = Kinds(fi)
             for node in ast.walk(fi.node):
                 if not (isinstance(node, ast.Name) and isinstance(
                         node.ctx, ast.Load)):
@@ -280,6 +299,14 @@ def run(prog: Program, res: Result, tier: str) -> None:
                                 f"{fi.short}: the identifiers in "
                                 f"`{norm(node)}` are used without the "
                                 f"renaming in `{norm(p, 80)}`", instance=inst)
+        for fi in chain:
+            if fi.qual in seen_funcs:
+                continue
+            seen_funcs.add(fi.qual)
+            params = fi.params()
+            if len(params) < 2:
+                raise AnalysisError(f"{fi.qual}: unexpected signature")
+            check_body(fi, params[1])
         # R-REBUILD-SOURCE: each slot is rebuilt from the same slot of self
         from ..core import DefUse
         for fi in chain:
